@@ -10,7 +10,7 @@ git apply "$patch"
 trap 'git -C /repo checkout -- . ; git -C /repo clean -fdq' EXIT
 cd /verif
 out=$(VERIF_SEED=${VERIF_SEED:-1} ./check "$prop" "$tier" 2>&1); rc=$?
-sig=$(echo "$out" | grep -m1 'signature=' | sed 's/.*signature=//')
+sig=$(echo "$out" | grep -A1 '^VIOLATION' | grep -m1 'signature=' | sed 's/.*signature=//')
 case $rc in
  1) echo "DETECTED $prop $(basename "$patch") :: $sig";;
  0) echo "MISSED   $prop $(basename "$patch")";;
